@@ -419,6 +419,12 @@ def real_parse_outcome(s: str):
         if str(e).startswith(_PARSER_MSG):
             return ("raised", "ValueError")
         return ("arith", "ValueError:" + str(e)[:60])
+    except TypeError as e:
+        # SymPy's arity check ("floor takes exactly 1 argument (2 given)") rejects the text; any other
+        # TypeError is SymPy refusing an operand outside the reals (Mod of sqrt(-1), ...)
+        if "takes" in str(e) and "argument" in str(e):
+            return ("raised", "TypeError")
+        return ("arith", "TypeError:" + str(e)[:60])
     except Exception as e:  # noqa: BLE001
         return ("raised", type(e).__name__)
 
@@ -783,8 +789,12 @@ def sympy_direct_value(t, *envs, simplify=False):
         return ("symbolic", str(r))
     except (CaseTimeout, MemoryError, SkipCase):
         raise
-    except Exception:  # noqa: BLE001  (including SymPy's own RecursionError)
+    except ZeroDivisionError:
+        return "zerodiv"
+    except RecursionError:
         return "exc"
+    except Exception as e:  # noqa: BLE001
+        return "raised:" + type(e).__name__
 
 
 def upstream_blame(real_val, *cands, simplify=False):
@@ -1591,7 +1601,7 @@ def run(ctx: Ctx) -> None:
     for t in ex:
         tree_items.append(dict(tree=t, envs=envs16, splits=[({"N": 2}, {"M": 3})], simplify=False, shape=False, src="exhaustive", light=True))
     # ---- random deep trees
-    for i in range(ctx.pick(400, 6000)):
+    for i in range(ctx.pick(400, 4000)):
         depth = rng.choice([2, 3, 3, 4, 4, 5, 6])
         nsyms = rng.choice([1, 2, 2, 3, 4])
         t = gen_tree(rng, depth, nsyms, [-7, -3, -2, -1, 0, 1, 2, 3, 4, 6, 12])
@@ -1603,14 +1613,14 @@ def run(ctx: Ctx) -> None:
     for s in FIXED_MALFORMED:
         str_items.append(dict(s=s, envs=_string_envs(rng, s), src="fixed"))
     deriv_items = []
-    for i in range(ctx.pick(2500, 40000)):
+    for i in range(ctx.pick(2500, 30000)):
         d = gen_deriv(rng, rng.choice([1, 2, 2, 3, 4]))
         toks = flatten_deriv(d)
         s = render_tokens(rng, toks, rng.choice([0, 1, 2]))
         envs = _string_envs(rng, s)
         str_items.append(dict(s=s, envs=envs, src="grammar"))
         deriv_items.append(dict(d=d, envs=envs, src="derivation"))
-    for i in range(ctx.pick(2500, 40000)):
+    for i in range(ctx.pick(2500, 30000)):
         s = gen_malformed(rng, rng.choice([0, 1, 2, 3]))
         str_items.append(dict(s=s, envs=_string_envs(rng, s), src="malformed"))
     ctx.count("corpus_cases", ncorpus)
